@@ -9,14 +9,134 @@ use crate::sched;
 use crate::util::*;
 use metrics_util::storage::AtomicBucket;
 use std::collections::{BTreeMap, BTreeSet};
+use std::sync::atomic::{AtomicIsize, AtomicUsize, Ordering};
 use std::sync::{Arc, Mutex};
 
 pub const B: usize = 64;
+
+// ---------------------------------------------------------------------------------------------
+// value type with a destructor: every value pushed into a bucket is a `Tv` registered in a `Reg`; its `Drop`
+// records the drop (so "dropped exactly once, eventually" is checked for every value of every run) and
+// overwrites a magic word (so a callback that is handed a slot whose value was already dropped sees it).
+
+const MAGIC: u64 = 0x5AFE_C0DE_5AFE_C0DE;
+const DEAD: u64 = 0xDEAD_DEAD_DEAD_DEAD;
+
+#[derive(Default)]
+pub struct Reg {
+    drops: Mutex<BTreeMap<u64, u32>>,
+    created: Mutex<Vec<u64>>,
+    live: AtomicIsize,
+    bad_magic_on_drop: AtomicUsize,
+    bad_magic_on_read: AtomicUsize,
+}
+
+pub struct Tv {
+    magic: u64,
+    v: u64,
+    clone: bool,
+    reg: Arc<Reg>,
+}
+
+impl Tv {
+    fn new(reg: &Arc<Reg>, v: u64) -> Tv {
+        reg.live.fetch_add(1, Ordering::SeqCst);
+        reg.created.lock().unwrap().push(v);
+        Tv { magic: MAGIC, v, clone: false, reg: reg.clone() }
+    }
+    /// value as seen by a reader callback (records a read of an already dropped value)
+    fn read(&self) -> u64 {
+        let m = unsafe { std::ptr::read_volatile(&self.magic) };
+        if m != MAGIC {
+            self.reg.bad_magic_on_read.fetch_add(1, Ordering::SeqCst);
+        }
+        self.v
+    }
+}
+
+impl Clone for Tv {
+    // `AtomicBucket::data()` clones; clones are not pushed values and their drops are not counted
+    fn clone(&self) -> Tv {
+        Tv { magic: self.magic, v: self.v, clone: true, reg: self.reg.clone() }
+    }
+}
+
+impl Drop for Tv {
+    fn drop(&mut self) {
+        if self.magic != MAGIC {
+            self.reg.bad_magic_on_drop.fetch_add(1, Ordering::SeqCst);
+        }
+        unsafe { std::ptr::write_volatile(&mut self.magic, DEAD) };
+        if !self.clone {
+            *self.reg.drops.lock().unwrap().entry(self.v).or_insert(0) += 1;
+            self.reg.live.fetch_sub(1, Ordering::SeqCst);
+        }
+    }
+}
+
+/// Drives crossbeam-epoch's collector from this thread until every registered value has been dropped (or a
+/// generous bound is hit): `clear()` on a non-empty scratch bucket ends with `guard.flush()`, which advances the
+/// global epoch (no other thread is pinned: all managed threads have been joined) and runs expired deferred
+/// functions. Purely logical: no sleeping, no timing.
+fn flush_epoch(reg: &Reg) -> usize {
+    // The end state (everything dropped) is deterministic; only WHEN it is reached can vary: a thread that has been
+    // joined through `thread::scope` may still be running its thread-local destructors (crossbeam's per-thread
+    // handle hands its pending bag to the global queue there). So after the first rounds the loop yields, and it
+    // gives up only after 20 000 rounds AND 15 s — three orders of magnitude above what was ever observed (< 10
+    // rounds, < 1 ms).
+    // (Once one run has really leaked, later runs skip the time floor so that a leaking tree does not cost 15 s per case.)
+    static LEAK_SEEN: std::sync::atomic::AtomicBool = std::sync::atomic::AtomicBool::new(false);
+    let t0 = std::time::Instant::now();
+    let mut rounds = 0;
+    while reg.live.load(Ordering::SeqCst) != 0
+        && (rounds < 20_000 || (!LEAK_SEEN.load(Ordering::Relaxed) && t0.elapsed().as_secs() < 15))
+    {
+        let scratch: AtomicBucket<u8> = AtomicBucket::new();
+        scratch.push(0);
+        scratch.clear();
+        rounds += 1;
+        if rounds > 200 {
+            std::thread::yield_now();
+        }
+        if rounds > 20_000 {
+            std::thread::sleep(std::time::Duration::from_millis(1));
+        }
+    }
+    if reg.live.load(Ordering::SeqCst) != 0 {
+        LEAK_SEEN.store(true, Ordering::Relaxed);
+    }
+    rounds
+}
+
+#[derive(Clone, Debug, Default)]
+pub struct DropReport {
+    pub created: usize,
+    pub never_dropped: Vec<u64>,
+    pub dropped_twice: Vec<u64>,
+    pub bad_magic_on_drop: usize,
+    pub bad_magic_on_read: usize,
+    pub flush_rounds: usize,
+}
+
+fn drop_report(reg: &Reg, flush_rounds: usize) -> DropReport {
+    let drops = reg.drops.lock().unwrap();
+    let created = reg.created.lock().unwrap();
+    DropReport {
+        created: created.len(),
+        never_dropped: created.iter().copied().filter(|v| !drops.contains_key(v)).collect(),
+        dropped_twice: drops.iter().filter(|(_, n)| **n > 1).map(|(v, _)| *v).collect(),
+        bad_magic_on_drop: reg.bad_magic_on_drop.load(Ordering::SeqCst),
+        bad_magic_on_read: reg.bad_magic_on_read.load(Ordering::SeqCst),
+        flush_rounds,
+    }
+}
 
 #[derive(Clone, Copy, Debug, PartialEq)]
 pub enum Call {
     Push(u64),
     Data,
+    /// `data()` (the cloning convenience wrapper over `data_with`); same model call as `Data`
+    DataV,
     Clear,
     IsEmpty,
 }
@@ -29,7 +149,7 @@ pub fn prog_tok(p: &[Call]) -> String {
     p.iter()
         .map(|c| match c {
             Call::Push(v) => format!("p{}", v),
-            Call::Data => "d".into(),
+            Call::Data | Call::DataV => "d".into(),
             Call::Clear => "c".into(),
             Call::IsEmpty => "e".into(),
         })
@@ -55,45 +175,79 @@ fn vals(v: &[u64]) -> String {
 
 pub struct Outcome {
     pub results: Vec<Vec<Res>>,
+    /// per thread, per completed call: lengths of the slices handed to the callback (empty for push / is_empty / data())
+    pub cbs: Vec<Vec<Vec<usize>>>,
     pub final_visible: Vec<u64>,
+    pub empty_after_clear: bool,
+    pub drops: DropReport,
     pub run: sched::RunResult,
 }
 
 pub fn execute(progs: &[Vec<Call>], schedule: &[usize]) -> Outcome {
-    let bucket: Arc<AtomicBucket<u64>> = Arc::new(AtomicBucket::new());
-    let results: Arc<Mutex<Vec<Vec<Res>>>> = Arc::new(Mutex::new(vec![vec![]; progs.len()]));
+    let reg: Arc<Reg> = Arc::new(Reg::default());
+    let bucket: Arc<AtomicBucket<Tv>> = Arc::new(AtomicBucket::new());
+    let results: Arc<Mutex<Vec<Vec<(Res, Vec<usize>)>>>> = Arc::new(Mutex::new(vec![vec![]; progs.len()]));
     let mut bodies: Vec<Box<dyn FnOnce() + Send + 'static>> = vec![];
     for (t, prog) in progs.iter().enumerate() {
         let prog = prog.clone();
         let bucket = bucket.clone();
         let results = results.clone();
+        let reg = reg.clone();
         bodies.push(Box::new(move || {
             for c in prog {
+                let mut lens = vec![];
                 let r = match c {
                     Call::Push(v) => {
-                        bucket.push(v);
+                        bucket.push(Tv::new(&reg, v));
                         Res::Pushed
                     }
                     Call::Data => {
                         let mut acc = vec![];
-                        bucket.data_with(|b| acc.extend_from_slice(b));
+                        bucket.data_with(|b| {
+                            lens.push(b.len());
+                            acc.extend(b.iter().map(|x| x.read()))
+                        });
                         Res::Snap(acc)
                     }
+                    Call::DataV => Res::Snap(bucket.data().iter().map(|x| x.read()).collect()),
                     Call::Clear => {
                         let mut acc = vec![];
-                        bucket.clear_with(|b| acc.extend_from_slice(b));
+                        bucket.clear_with(|b| {
+                            lens.push(b.len());
+                            acc.extend(b.iter().map(|x| x.read()))
+                        });
                         Res::Clr(acc)
                     }
                     Call::IsEmpty => Res::Empty(bucket.is_empty()),
                 };
-                results.lock().unwrap()[t].push(r);
+                results.lock().unwrap()[t].push((r, lens));
             }
         }));
     }
     let run = sched::run(bodies, schedule);
-    let final_visible = if run.deadlock || run.timed_out { vec![] } else { bucket.data() };
+    let stuck = run.deadlock || run.timed_out;
+    let mut final_visible = vec![];
+    let mut empty_after_clear = true;
+    let mut rounds = 0;
+    if !stuck {
+        bucket.data_with(|b| final_visible.extend(b.iter().map(|x| x.read())));
+        // reclamation: clear() (no callback) hands every remaining block to the collector; then the bucket goes
+        // away and the collector is driven until every value has been dropped
+        bucket.clear();
+        empty_after_clear = bucket.is_empty() && bucket.data().is_empty();
+        drop(bucket);
+        rounds = flush_epoch(&reg);
+    }
+    let drops = drop_report(&reg, rounds);
     let res = results.lock().unwrap().clone();
-    Outcome { results: res, final_visible, run }
+    Outcome {
+        results: res.iter().map(|rs| rs.iter().map(|x| x.0.clone()).collect()).collect(),
+        cbs: res.iter().map(|rs| rs.iter().map(|x| x.1.clone()).collect()).collect(),
+        final_visible,
+        empty_after_clear,
+        drops,
+        run,
+    }
 }
 
 pub fn answer(o: &Outcome) -> String {
@@ -255,7 +409,87 @@ pub fn oracle(out: &mut Out, progs: &[Vec<Call>], o: &Outcome) {
             }
         }
     }
-    let detail = |what: &str| format!("{} :: trace {:?} results {:?}", what, o.run.trace, o.results);
+    let detail = |what: &str| {
+        // long traces (hundreds of prefill grants) are abbreviated in the middle; the op line replays them exactly
+        let tr = &o.run.trace;
+        let trs = if tr.len() > 400 { format!("{:?} … {:?}", &tr[..150], &tr[tr.len() - 250..]) } else { format!("{:?}", tr) };
+        let rs: Vec<Vec<&Res>> = o.results.iter().map(|r| r.iter().filter(|x| **x != Res::Pushed).collect()).collect();
+        format!("{} :: trace {} results(non-push) {:?}", what, trs, rs)
+    };
+    // ---- destructors / reclamation: every value handed to push() is dropped exactly once after the final clear(),
+    // the drop of the bucket and a drive of the collector; no callback ever saw a dropped value
+    if !o.drops.never_dropped.is_empty() {
+        out.oracle_fail(
+            "value never dropped: leaked by clear()/reclamation (destructor not run after clear + bucket drop + collector flush)",
+            &detail(&format!("{} of {} values, first {:?}, flush rounds {}", o.drops.never_dropped.len(), o.drops.created, &o.drops.never_dropped[..o.drops.never_dropped.len().min(8)], o.drops.flush_rounds)),
+        );
+    }
+    if !o.drops.dropped_twice.is_empty() || o.drops.bad_magic_on_drop > 0 {
+        out.oracle_fail("value dropped more than once (double free of a block / slot)", &detail(&format!("{:?} bad-magic-drops={}", o.drops.dropped_twice, o.drops.bad_magic_on_drop)));
+    }
+    if o.drops.bad_magic_on_read > 0 {
+        out.oracle_fail("a reader callback was handed a value that had already been dropped (block freed under a reader)", &detail(&o.drops.bad_magic_on_read.to_string()));
+    }
+    if !o.empty_after_clear {
+        out.oracle_fail("bucket not empty right after clear() with no concurrent pusher", &detail(""));
+    }
+    // grant index of the successful slot claim of every push (a claim is successful iff that thread's next point is
+    // the publish step)
+    let mut claim_at: BTreeMap<u64, usize> = BTreeMap::new();
+    for (t, prog) in progs.iter().enumerate() {
+        let mine: Vec<(usize, &str)> = o.run.trace.iter().enumerate().filter(|(_, (t2, _))| *t2 == t).map(|(gi, (_, id))| (gi, *id)).collect();
+        let mut k = 0;
+        for w in mine.windows(2) {
+            while k < spans[t].len() && spans[t][k].1 < w[0].0 {
+                k += 1;
+            }
+            if w[0].1 == "blk.push.claim" && w[1].1 == "blk.push.publish" {
+                if let Some(Call::Push(v)) = prog.get(k) {
+                    claim_at.insert(*v, w[0].0);
+                }
+            }
+        }
+    }
+    // ---- callback protocol: one callback per block walked (= per `read` point of that call), slices of at most B,
+    // and the concatenation is what the call reported
+    for (t, prog) in progs.iter().enumerate() {
+        let mut reads_per_call: Vec<usize> = vec![0; spans[t].len()];
+        for (gi, (t2, id)) in o.run.trace.iter().enumerate() {
+            if *t2 == t && (*id == "bkt.data.read" || *id == "bkt.clear.read") {
+                if let Some(k) = spans[t].iter().position(|sp| sp.0 <= gi && gi <= sp.1) {
+                    reads_per_call[k] += 1;
+                }
+            }
+        }
+        for (i, c) in prog.iter().enumerate() {
+            let (Some(r), Some(lens)) = (o.results[t].get(i), o.cbs[t].get(i)) else { continue };
+            if !matches!(c, Call::Data | Call::Clear) {
+                continue;
+            }
+            let n = match r {
+                Res::Snap(v) | Res::Clr(v) => v.len(),
+                _ => 0,
+            };
+            // values of one block appear in push (= slot claim) order
+            if let Res::Snap(v) | Res::Clr(v) = r {
+                let mut at = 0;
+                for l in lens {
+                    let sl = &v[at.min(v.len())..(at + l).min(v.len())];
+                    at += l;
+                    let idx: Vec<Option<&usize>> = sl.iter().map(|x| claim_at.get(x)).collect();
+                    if idx.iter().any(|x| x.is_none()) || idx.windows(2).any(|w| w[0] >= w[1]) {
+                        out.oracle_fail("values of one block are not in push (slot claim) order", &detail(&format!("thread {} call {} slice {:?}", t, i, sl)));
+                    }
+                }
+            }
+            if lens.iter().any(|l| *l > B) || lens.iter().sum::<usize>() != n || reads_per_call.get(i).copied() != Some(lens.len()) {
+                out.oracle_fail(
+                    "callback protocol: not exactly one callback (slice ≤ block size) per block walked",
+                    &detail(&format!("thread {} call {} slice lengths {:?} blocks read {:?}", t, i, lens, reads_per_call.get(i))),
+                );
+            }
+        }
+    }
     if !dup.is_empty() {
         out.oracle_fail(&format!("value delivered to more than one clearing read [{}]", tag(&sig)), &detail(&format!("{:?}", dup)));
     }
@@ -290,13 +524,16 @@ pub fn oracle(out: &mut Out, progs: &[Vec<Call>], o: &Outcome) {
     for (t, prog) in progs.iter().enumerate() {
         for (i, c) in prog.iter().enumerate() {
             let (Some(r), Some(sp)) = (o.results[t].get(i), spans[t].get(i)) else { continue };
+            if matches!(c, Call::Push(_) | Call::Clear) {
+                continue;
+            }
             let must: Vec<u64> = pushed
                 .iter()
                 .filter(|(v, done_at)| **done_at < sp.0 && !delivered.contains_key(v))
                 .map(|(v, _)| *v)
                 .collect();
             match (c, r) {
-                (Call::Data, Res::Snap(vs)) => {
+                (Call::Data | Call::DataV, Res::Snap(vs)) => {
                     if let Some(m) = must.iter().find(|m| !vs.contains(m)) {
                         out.oracle_fail(
                             &format!("snapshot misses a value whose push completed before it began and that no clear took [{}]", tag(&sig)),
@@ -356,7 +593,13 @@ fn gen_progs(r: &mut Rng) -> (Vec<Vec<Call>>, Vec<usize>) {
                     next_val += 1;
                     Call::Push(next_val * 1000)
                 }
-                1 => Call::Data,
+                1 => {
+                    if r.chance(1, 4) {
+                        Call::DataV
+                    } else {
+                        Call::Data
+                    }
+                }
                 2 => Call::Clear,
                 _ => Call::IsEmpty,
             };
@@ -399,7 +642,104 @@ fn one(out: &mut Out, progs: &[Vec<Call>], sch: &[usize]) {
         out.count("reader waited for quiescence");
         out.nontrivial();
     }
+    // longest wait of one reader call on one block (grants at the spin point without leaving it)
+    let mut longest = 0usize;
+    let mut cur: BTreeMap<usize, usize> = BTreeMap::new();
+    for (t, id) in &o.run.trace {
+        if id.starts_with("spin:") {
+            let c = cur.entry(*t).or_insert(0);
+            *c += 1;
+            longest = longest.max(*c);
+        } else {
+            cur.insert(*t, 0);
+        }
+    }
+    if longest >= 12 {
+        out.count("reader waited ≥12 rounds (beyond any Backoff completion)");
+    }
+    if longest >= 40 {
+        out.count("reader waited ≥40 rounds");
+    }
+    // the pusher that installed a new block found it already full when it claimed (push retry path)
+    let tr = &o.run.trace;
+    for (gi, (t, id)) in tr.iter().enumerate() {
+        if *id == "bkt.push.cas_new" {
+            let mine: Vec<&str> = tr[gi + 1..].iter().filter(|(t2, _)| t2 == t).map(|x| x.1).take(2).collect();
+            if mine.len() == 2 && mine[0] == "blk.push.claim" && mine[1] == "bkt.push.load_tail" {
+                out.count("push: own new block already full (retry path)");
+                out.nontrivial();
+            }
+        }
+    }
+    let blocks_cleared = o.cbs.iter().flatten().map(|l| l.len()).max().unwrap_or(0);
+    if blocks_cleared >= 32 {
+        out.count("walk of ≥32 blocks (deferred-destroy batch branch)");
+        out.nontrivial();
+    }
+    out.count_n("values dropped exactly once (destructor accounting)", (o.drops.created - o.drops.never_dropped.len()) as u64);
     oracle(out, progs, &o);
+}
+
+/// Stalled-writer generator: one or two pushers are parked somewhere inside their push (before the claim, between
+/// slot write and publish, or at the hand-over CAS) for a LONG time — far longer than any bounded back-off —
+/// while a busy pusher completes pushes above the stalled slot and readers (snapshot / is_empty / clear) run and
+/// wait. Then the stalled pushers are released.
+fn gen_stalled(r: &mut Rng) -> (Vec<Vec<Call>>, Vec<usize>) {
+    let mut progs: Vec<Vec<Call>> = vec![];
+    let mut sch: Vec<usize> = vec![];
+    let prefill = *r.pick(&[0usize, 0, 1, 5, 30, 61, 62, 63, 64]);
+    if prefill > 0 {
+        progs.push(pf(prefill));
+        sch.extend(rep(0, prefill * 3 + 4));
+    }
+    let n_stalled = r.range(1, 2);
+    let first_stalled = progs.len();
+    for k in 0..n_stalled {
+        progs.push(vec![Call::Push(900_001 + k as u64)]);
+    }
+    let busy = progs.len();
+    let m = match r.below(4) {
+        0 => r.range(60, 70),
+        _ => r.range(8, 20),
+    };
+    progs.push((0..m as u64).map(|x| Call::Push(10_000 + x)).collect());
+    let n_readers = r.range(1, 2);
+    let first_reader = progs.len();
+    for _ in 0..n_readers {
+        let mut p = vec![];
+        for _ in 0..r.range(1, 3) {
+            p.push(match r.weighted(&[5, 2, 2, 3]) {
+                0 => Call::Data,
+                1 => Call::DataV,
+                2 => Call::Clear,
+                _ => Call::IsEmpty,
+            });
+        }
+        progs.push(p);
+    }
+    // park the stalled pushers: 2 grants = before the claim (tail loaded), 3 = after the slot write / at the
+    // hand-over CAS, 4 = (empty bucket) after the slot write / (full tail) after the hand-over CAS
+    for k in 0..n_stalled {
+        let g = *r.pick(&[2usize, 3, 3, 3, 4]);
+        sch.extend(rep(first_stalled + k, g));
+    }
+    // the busy pusher completes some pushes before any reader starts
+    let head = r.below(m - 5);
+    sch.extend(rep(busy, 1 + head * 3));
+    // long interleaving of the busy pusher and the readers; the stalled pushers are not scheduled
+    let others: Vec<usize> = std::iter::once(busy).chain(first_reader..first_reader + n_readers).collect();
+    let mut cur = *r.pick(&others);
+    for _ in 0..(3 * m + 60) {
+        if r.chance(1, 2) {
+            cur = *r.pick(&others);
+        }
+        sch.push(cur);
+    }
+    // release
+    for k in 0..n_stalled {
+        sch.extend(rep(first_stalled + k, 8));
+    }
+    (progs, sch)
 }
 
 fn pf(n: usize) -> Vec<Call> {
@@ -448,7 +788,6 @@ pub fn run(cfg: &Cfg, out: &mut Out) {
     // deep hand-over grid: pusher A (thread 1) is held either just before its hand-over CAS or just after that
     // CAS failed (before it re-loads the tail) while pusher B (thread 2) pushes j more values — through zero, one
     // or two further hand-overs — then A finishes, then B, then a reader snapshots and clears.
-    let _ = root;
     for pre in [B - 1, B] {
         for after_failed_cas in [false, true] {
             for j in [1usize, B - 2, B - 1, B, B + 1, 2 * B - 2, 2 * B - 1, 2 * B, 2 * B + 1] {
@@ -474,6 +813,104 @@ pub fn run(cfg: &Cfg, out: &mut Out) {
             }
         }
     }
+    // ---- stalled-writer cases (random): a third as many as the plain random cases
+    for i in 0..(cfg.cases / 3).max(20) {
+        let mut r = root.fork(1_000_000 + i as u64);
+        out.case(&format!("stalled seed={} i={}", cfg.seed, i));
+        let (progs, sch) = gen_stalled(&mut r);
+        out.count("stalled-writer case");
+        one(out, &progs, &sch);
+    }
+    // ---- stalled-writer grid (deterministic): T1 is parked between its slot write and its publish in slot `s`
+    // (s values prefilled by T0); T2 then completes j pushes above it — up to filling the block, optionally going on
+    // to install the next block and parking right after that CAS (fresh empty tail in front of a full block with
+    // an unpublished low slot), or crossing the hand-over completely; only then the reader T3 starts and waits,
+    // for 50 rounds, while the ticker T4 keeps pushing; T1 is released last.
+    for s in [0usize, 1, 62] {
+        for (j, park_after_cas) in [(1usize, false), (B - 1 - s, false), (B - 1 - s, true), (B - s + 6, false)] {
+            if j == 0 {
+                continue;
+            }
+            for reader in [vec![Call::IsEmpty, Call::Data, Call::IsEmpty], vec![Call::DataV, Call::Clear, Call::Data]] {
+                out.case(&format!("stall-grid s={} j={} park_after_cas={} reader={}", s, j, park_after_cas, prog_tok(&reader)));
+                let mut progs: Vec<Vec<Call>> = vec![];
+                let mut sch: Vec<usize> = vec![];
+                if s > 0 {
+                    progs.push(pf(s));
+                    sch.extend(rep(0, s * 3 + 4));
+                }
+                let t1 = progs.len();
+                progs.push(vec![Call::Push(900_001)]);
+                sch.extend(rep(t1, if s == 0 { 4 } else { 3 })); // start, load_tail, [cas_first,] claim → parked at publish
+                let t2 = progs.len();
+                let extra = if park_after_cas { 1 } else { 0 };
+                progs.push((0..(j + extra) as u64).map(|x| Call::Push(10_000 + x)).collect());
+                let handovers = if s + 1 + j > B { 1 } else { 0 };
+                if park_after_cas {
+                    sch.extend(rep(t2, 1 + 3 * j + 3)); // j complete pushes, then load_tail, claim (full), cas_new → parked at claim
+                } else {
+                    sch.extend(rep(t2, 1 + 3 * j + 2 * handovers));
+                }
+                let t3 = progs.len();
+                progs.push(reader.clone());
+                let t4 = progs.len();
+                progs.push((0..20u64).map(|x| Call::Push(20_000 + x)).collect());
+                for _ in 0..50 {
+                    sch.push(t3);
+                    sch.push(t4);
+                }
+                sch.extend(rep(t1, 4));
+                sch.extend(rep(t3, 400));
+                sch.extend(rep(t2, 20));
+                sch.extend(rep(t4, 100));
+                out.count("stall-grid");
+                one(out, &progs, &sch);
+            }
+        }
+    }
+    // ---- hand-over WINNER grid: 64 prefilled; A (T1) fails its claim, wins the hand-over CAS and is parked before
+    // claiming in its own new block; B (T2) then pushes j values into that block (j ≥ 64: A finds its own block
+    // full and starts over — bucket.rs "The block was full, so just loop and start over"; j ≥ 65: through one more
+    // hand-over; 129: two more). Optionally a reader (T3) is parked in the middle of its walk (after reading the fresh
+    // tail, before following `next`) while all that happens.
+    for j in [B - 1, B, B + 1, 2 * B + 1] {
+        for reader_mid in [false, true] {
+            out.case(&format!("handover-winner j={} reader_mid={}", j, reader_mid));
+            let t0 = pf(B);
+            let t1 = vec![Call::Push(900_001)];
+            let t2: Vec<Call> = (0..j as u64).map(|x| Call::Push(10_000 + x)).collect();
+            let t3 = vec![Call::Data, Call::Clear, Call::Data, Call::IsEmpty];
+            let mut sch = [rep(0, B * 3 + 4), rep(1, 4)].concat(); // A: start, load_tail, claim (full), cas_new (wins) → parked at claim
+            if reader_mid {
+                sch.extend(rep(3, 4)); // start, load_tail, quiesced, read → parked at next
+            }
+            sch.extend(rep(2, 1 + 3 * j + 2 * (j / B) + 4));
+            sch.extend(rep(1, 12));
+            sch.extend(rep(3, 600));
+            out.count("handover-winner");
+            one(out, &[t0, t1, t2, t3], &sch);
+        }
+    }
+    // ---- long chains: more than DEFERRED_BLOCK_BATCH_SIZE (32) blocks in one clear — the deferred-destroy batch
+    // branch of clear_with — with a push arriving while the clear walks the detached chain
+    let chain_sizes: Vec<usize> = if cfg.thorough { vec![32 * B, 33 * B + 7, 65 * B + 1] } else { vec![32 * B, 33 * B + 7] };
+    for n in chain_sizes {
+        out.case(&format!("long-chain n={}", n));
+        let t0 = pf(n);
+        let t1 = vec![Call::Data, Call::Clear, Call::Data, Call::IsEmpty];
+        let t2 = vec![Call::Push(900_001), Call::Push(900_002)];
+        let blocks = (n + B - 1) / B;
+        let mut sch = rep(0, 3 * n + 2 * blocks + 8);
+        sch.extend(rep(1, 3 * blocks + 4)); // the snapshot
+        sch.extend(rep(1, 1 + 3 * 12)); // the clear: detach, then 12 blocks into the walk
+        sch.extend(rep(2, 6)); // a push lands in a fresh block meanwhile
+        sch.extend(rep(1, 3 * blocks + 20));
+        sch.extend(rep(2, 6));
+        out.count("long-chain");
+        one(out, &[t0, t1, t2], &sch);
+    }
+    free_running(cfg, out, &root);
+    api_surface(out);
     if cfg.thorough {
         let configs: Vec<(Vec<Vec<Call>>, Vec<usize>)> = vec![
             (vec![vec![Call::Push(1)], vec![Call::Push(2)], vec![Call::Clear]], vec![]),
@@ -527,6 +964,239 @@ pub fn run(cfg: &Cfg, out: &mut Out) {
             out.nontrivial();
         }
     }
+}
+
+/// Free-running stress (no scheduler, real preemption, the real `Backoff` waits): pushers, snapshot readers,
+/// is_empty callers and — every other round — clearers on one `AtomicBucket<Tv>`. All oracles are logical (no
+/// timing): a pusher publishes its progress with a Release store AFTER `push` returned, a reader loads the progress
+/// counters with Acquire BEFORE it starts a snapshot, so every value below the loaded progress is a push that
+/// completed before the snapshot began. Rounds with clearers cannot assert completeness or conservation (the known
+/// K1 window loses values and no trace is available to recognise it); they assert no duplicate, no fabrication,
+/// block order, and — like every round — that every value is dropped exactly once after the final clear().
+fn free_running(cfg: &Cfg, out: &mut Out, root: &Rng) {
+    let rounds = if cfg.thorough { 16 } else { 6 };
+    for k in 0..rounds {
+        let mut r = root.fork(2_000_000 + k as u64);
+        let n_push = r.range(2, 4);
+        let per = if cfg.thorough { r.range(2000, 6000) } else { r.range(500, 2000) };
+        let n_snap = r.range(1, 2);
+        let with_clear = k % 2 == 1;
+        out.case(&format!("free-running k={} pushers={} per={} snapshot-readers={} clearer={}", k, n_push, per, n_snap, with_clear));
+        out.count("free-running round");
+        let reg: Arc<Reg> = Arc::new(Reg::default());
+        let bucket: AtomicBucket<Tv> = AtomicBucket::default();
+        let progress: Vec<AtomicUsize> = (0..n_push).map(|_| AtomicUsize::new(0)).collect();
+        let done = AtomicUsize::new(0);
+        let val = |t: usize, i: usize| ((t + 1) * 10_000_000 + i) as u64;
+        let decode = |v: u64| -> Option<(usize, usize)> {
+            let (t, i) = ((v / 10_000_000) as usize, (v % 10_000_000) as usize);
+            if t >= 1 && t <= n_push && i < per {
+                Some((t - 1, i))
+            } else {
+                None
+            }
+        };
+        let fails: Mutex<Vec<(String, String)>> = Mutex::new(vec![]);
+        let delivered: Mutex<Vec<u64>> = Mutex::new(vec![]);
+        let snapshots = AtomicUsize::new(0);
+        let waited_nonempty = AtomicUsize::new(0);
+        std::thread::scope(|sc| {
+            for t in 0..n_push {
+                let (bucket, reg, progress, done) = (&bucket, &reg, &progress, &done);
+                sc.spawn(move || {
+                    for i in 0..per {
+                        bucket.push(Tv::new(reg, val(t, i)));
+                        progress[t].store(i + 1, Ordering::Release);
+                        if i % 97 == 0 {
+                            std::thread::yield_now();
+                        }
+                    }
+                    done.fetch_add(1, Ordering::SeqCst);
+                });
+            }
+            for _ in 0..n_snap {
+                let (bucket, progress, done, fails, snapshots, waited_nonempty) = (&bucket, &progress, &done, &fails, &snapshots, &waited_nonempty);
+                sc.spawn(move || {
+                    let mut last = false;
+                    loop {
+                        // `last`: one more snapshot after all pushers are done
+                        let finished = done.load(Ordering::SeqCst) == n_push;
+                        let before: Vec<usize> = progress.iter().map(|p| p.load(Ordering::Acquire)).collect();
+                        let empty = bucket.is_empty();
+                        let mut slices: Vec<Vec<u64>> = vec![];
+                        bucket.data_with(|b| slices.push(b.iter().map(|x| x.read()).collect()));
+                        snapshots.fetch_add(1, Ordering::Relaxed);
+                        let mut seen: BTreeSet<u64> = BTreeSet::new();
+                        let mut fail = |w: &str, d: String| fails.lock().unwrap().push((w.to_string(), d));
+                        for sl in &slices {
+                            if sl.len() > B {
+                                fail("free-running: callback slice longer than a block", format!("{}", sl.len()));
+                            }
+                            let mut last_i: Vec<Option<usize>> = vec![None; n_push];
+                            for v in sl {
+                                match decode(*v) {
+                                    None => fail("free-running: a value was observed that was never pushed (fabricated / read before written)", format!("{}", v)),
+                                    Some((t, i)) => {
+                                        if last_i[t].map_or(false, |l| l >= i) {
+                                            fail("free-running: values of one pusher within one block are not in push order", format!("{:?}", sl));
+                                        }
+                                        last_i[t] = Some(i);
+                                    }
+                                }
+                                if !seen.insert(*v) {
+                                    fail("free-running: snapshot contains a value twice", format!("{}", v));
+                                }
+                            }
+                        }
+                        if !with_clear {
+                            for (t, p) in before.iter().enumerate() {
+                                if let Some(i) = (0..*p).find(|i| !seen.contains(&val(t, *i))) {
+                                    fail(
+                                        "free-running: snapshot misses a value whose push completed before it began (no clear running)",
+                                        format!("pusher {} index {} (progress before the snapshot {}), snapshot size {}", t, i, p, seen.len()),
+                                    );
+                                }
+                            }
+                            if empty && before.iter().any(|p| *p > 0) {
+                                fail("free-running: is_empty answered true although a push had completed (no clear running)", format!("{:?}", before));
+                            }
+                            if before.iter().any(|p| *p > 0) {
+                                waited_nonempty.fetch_add(1, Ordering::Relaxed);
+                            }
+                        }
+                        if last {
+                            break;
+                        }
+                        last = finished;
+                        std::thread::yield_now();
+                    }
+                });
+            }
+            if with_clear {
+                let (bucket, done, delivered, fails) = (&bucket, &done, &delivered, &fails);
+                sc.spawn(move || loop {
+                    let finished = done.load(Ordering::SeqCst) == n_push;
+                    let mut got: Vec<u64> = vec![];
+                    bucket.clear_with(|b| {
+                        if b.len() > B {
+                            fails.lock().unwrap().push(("free-running: callback slice longer than a block".into(), format!("{}", b.len())));
+                        }
+                        got.extend(b.iter().map(|x| x.read()))
+                    });
+                    delivered.lock().unwrap().extend(got);
+                    if finished {
+                        break;
+                    }
+                    for _ in 0..20 {
+                        std::thread::yield_now();
+                    }
+                });
+            }
+        });
+        let mut fin: Vec<u64> = vec![];
+        bucket.data_with(|b| fin.extend(b.iter().map(|x| x.read())));
+        let delivered = delivered.into_inner().unwrap();
+        let mut fails = fails.into_inner().unwrap();
+        let mut count: BTreeMap<u64, usize> = BTreeMap::new();
+        for v in delivered.iter().chain(fin.iter()) {
+            *count.entry(*v).or_insert(0) += 1;
+            if decode(*v).is_none() {
+                fails.push(("free-running: a value was observed that was never pushed (fabricated / read before written)".into(), v.to_string()));
+            }
+        }
+        if let Some((v, n)) = count.iter().find(|(_, n)| **n > 1) {
+            fails.push(("free-running: pushed value duplicated (delivered twice, or delivered and still visible)".into(), format!("{} x{}", v, n)));
+        }
+        let lost = n_push * per - count.len().min(n_push * per);
+        if !with_clear && lost > 0 {
+            fails.push(("free-running: pushed value lost although no clear ever ran".into(), format!("{} of {}", lost, n_push * per)));
+        }
+        out.count_n("free-running: pushes", (n_push * per) as u64);
+        out.count_n("free-running: snapshots checked", snapshots.load(Ordering::Relaxed) as u64);
+        out.count_n("free-running: snapshots that had completed pushes to account for", waited_nonempty.load(Ordering::Relaxed) as u64);
+        if with_clear {
+            out.count_n("free-running: values delivered to concurrent clears", delivered.len() as u64);
+            out.count_n("free-running: completed pushes lost to racing clears (K1 window; not alarmed: no trace to recognise it)", lost as u64);
+        }
+        // reclamation
+        bucket.clear();
+        let empty_after = bucket.is_empty();
+        drop(bucket);
+        let rounds_used = flush_epoch(&reg);
+        let d = drop_report(&reg, rounds_used);
+        if !empty_after {
+            fails.push(("free-running: bucket not empty right after clear()".into(), String::new()));
+        }
+        if !d.never_dropped.is_empty() {
+            fails.push((
+                "value never dropped: leaked by clear()/reclamation (destructor not run after clear + bucket drop + collector flush)".into(),
+                format!("{} of {} (flush rounds {})", d.never_dropped.len(), d.created, d.flush_rounds),
+            ));
+        }
+        if !d.dropped_twice.is_empty() || d.bad_magic_on_drop > 0 {
+            fails.push(("value dropped more than once (double free of a block / slot)".into(), format!("{:?}", &d.dropped_twice[..d.dropped_twice.len().min(8)])));
+        }
+        if d.bad_magic_on_read > 0 {
+            fails.push(("a reader callback was handed a value that had already been dropped (block freed under a reader)".into(), d.bad_magic_on_read.to_string()));
+        }
+        out.count_n("values dropped exactly once (destructor accounting)", (d.created - d.never_dropped.len()) as u64);
+        fails.dedup_by(|a, b| a.0 == b.0);
+        for (w, dt) in fails.iter().take(6) {
+            out.oracle_fail(w, &format!("{} :: free-running round k={} seed={} (pushers={} per={} readers={} clearer={})", dt, k, cfg.seed, n_push, per, n_snap, with_clear));
+        }
+        out.nontrivial();
+    }
+}
+
+/// Sequential API surface that the scheduled runs do not reach: `Default`, `Debug`, `clear()`, `data()`, the
+/// `HistogramFn` impl for `AtomicBucket<f64>`; and what happens to values still in a bucket that is dropped.
+fn api_surface(out: &mut Out) {
+    use metrics::HistogramFn;
+    out.case("api-surface");
+    let b: AtomicBucket<f64> = AtomicBucket::default();
+    if !b.is_empty() || !b.data().is_empty() {
+        out.oracle_fail("api: a default bucket is not empty", "");
+    }
+    let want: Vec<f64> = (0..(2 * B + 3)).map(|i| i as f64 * 0.5).collect();
+    for v in &want {
+        b.record(*v);
+    }
+    let _ = format!("{:?}", b);
+    // blocks newest first, each block in push order
+    let mut expect: Vec<f64> = vec![];
+    for chunk in want.chunks(B).rev() {
+        expect.extend_from_slice(chunk);
+    }
+    let got = b.data();
+    if got.iter().map(|x| x.to_bits()).collect::<Vec<_>>() != expect.iter().map(|x| x.to_bits()).collect::<Vec<_>>() {
+        out.oracle_fail("api: HistogramFn::record + data() do not return the recorded values (blocks newest first, push order within a block)", &format!("{:?}", got));
+    }
+    b.clear();
+    if !b.is_empty() || !b.data().is_empty() {
+        out.oracle_fail("api: bucket not empty after clear()", "");
+    }
+    b.record(7.0);
+    if b.data() != vec![7.0] {
+        out.oracle_fail("api: push after clear() not visible", "");
+    }
+    // a bucket dropped with values still in it: are they ever dropped?  (reported as a counter, see REPORT.md)
+    let reg: Arc<Reg> = Arc::new(Reg::default());
+    {
+        let bk: AtomicBucket<Tv> = AtomicBucket::new();
+        for i in 0..(B + 5) as u64 {
+            bk.push(Tv::new(&reg, i));
+        }
+    }
+    // drive the collector a bounded number of rounds (nothing was deferred, so this cannot change the outcome; it
+    // only shows that the values are not merely "not yet" dropped)
+    for _ in 0..64 {
+        let scratch: AtomicBucket<u8> = AtomicBucket::new();
+        scratch.push(0);
+        scratch.clear();
+    }
+    let d = drop_report(&reg, 64);
+    out.count_n("finding: values never dropped when a non-empty bucket is dropped without clear() (AtomicBucket has no Drop)", d.never_dropped.len() as u64);
+    out.count_n("api-surface: values pushed into a bucket dropped without clear()", d.created as u64);
 }
 
 fn runs_key(progs: &[Vec<Call>]) -> String {
